@@ -45,6 +45,7 @@ def stepLine (st : DState) (line : String) : DState × String :=
   | "poolbin" :: args => let (s, o) := poolBinStep st.poolbin args; ({ st with poolbin := s }, o)
   | "persist" :: args => let (s, o) := persistStep st.persist args; ({ st with persist := s }, o)
   | "rpc" :: args => let (s, o) := rpcStep st.rpc args; ({ st with rpc := s }, o)
+  | "ethrpc" :: args => (st, ethRpcStep args)
   | "agentlife" :: args => let (s, o) := lifeDrvStep st.life args; ({ st with life := s }, o)
   | ["noop"] => (st, "noop")
   | [] => (st, "")
